@@ -190,6 +190,9 @@ def run_history(res, mdrv, cfg, history, audits, tag, variant='fixed', count=Tru
                 outcome = L.restart()
             elif h[0] == 'cb':
                 L.call(h[1], h[2])
+                if getattr(L, 'last_raise', None):
+                    res.fail(PROP, 'the handler callback for a reported event (%s) raised %s: the event has no complete record'
+                             % (h[1], L.last_raise), dict(replay, history=history[:i + 1]), key='callback-raised')
             elif h[0] == 'crash' and I.model_crash(h[1], h[2], 0, h[3], wk) is not None:
                 anomaly = L.crash_in(h[1], h[2], h[3])       # (a callback that writes nothing cannot be torn)
                 if anomaly:
